@@ -193,18 +193,18 @@ type TLSClient struct {
 	// plaintext phase
 	PlainP *wire.Parser
 	// TLS phase
-	cfg   *tls.Config
-	tc    *tls.Conn
-	cmds  chan func()
-	mu    sync.Mutex
-	P     *wire.Parser // responses read inside TLS (or plaintext when NoTLS)
-	HSDone bool
-	HSErr  error
-	State  tls.ConnectionState
-	EOF    bool
-	RdErr  error
-	NoTLS  bool // speak plain HTTP inside the tunnel
-	closed bool
+	cfg     *tls.Config
+	tc      *tls.Conn
+	cmds    chan func()
+	mu      sync.Mutex
+	P       *wire.Parser // responses read inside TLS (or plaintext when NoTLS)
+	HSDone  bool
+	HSErr   error
+	State   tls.ConnectionState
+	EOF     bool
+	RdErr   error
+	NoTLS   bool // speak plain HTTP inside the tunnel
+	closed  bool
 	started bool
 }
 
